@@ -153,5 +153,48 @@ def run(tier, seed):
     # 3. C->S real processes
     from . import c13_real
     c13_real.run(v, tier, seed)
+    # 4. C->S complete grids: generated with 2 / 3 worker processes and serially, every numeric variable of the two files compared
+    from .. import campaign, gridprops
+    from ..core import PY, VERIF, MachineryError, repo_env, run_group, parallel_jobs
+    pairs = campaign.C13_PAIRS if tier == "thorough" else campaign.C13_PAIRS[:2]
+    grids = campaign.ensure(sorted({n for p in pairs for n in p}))
+    jobs = []
+    for n, (a, b) in enumerate(pairs):
+        (da, sa), (db, sb) = grids[a], grids[b]
+        v.add_case("serial / parallel grid %s / %s" % (a, b))
+        if (sa["outcome"] == "file") != (sb["outcome"] == "file"):
+            v.violation("C13 engine=gridpair clause=ParallelOutcomeIsSerialOutcome pair=%s/%s" % (a, b),
+                        "the serial run ends in %s, the run with worker processes in %s" % (sa.get("exception", sa["outcome"]), sb.get("exception", sb["outcome"])),
+                        {"pair": [a, b], "outcomes": [sa["outcome"], sb["outcome"]]})
+            continue
+        if sa["outcome"] != "file":
+            continue
+        outp = os.path.join(da, "gt_C13_%s.json" % b)
+
+        def job(da=da, db=db, outp=outp, a=a, b=b, n=n):
+            rc, out, err = run_group([PY, "-B", os.path.join(VERIF, "harness/project.py"), da, "C13", "--pair", db, "parallel", outp], timeout=600, env=repo_env())
+            if rc != 0 or not os.path.exists(outp):
+                raise MachineryError("pair projection failed %s %s\n%s" % (a, b, (out + err)[-2000:]))
+            with open(outp) as fh:
+                t = json.load(fh)
+            t["id"] = 8000 + n
+            t["pair"] = "%s/%s" % (a, b)
+            return t
+
+        jobs.append(job)
+    ptr = parallel_jobs(jobs)
+    pf, pres = gridprops.validate(ptr, "C13p")
+    for r in pres:
+        v.add_tlc(r)
+    v.add_traces(len(ptr))
+    for t in ptr:
+        v.add_eval(t["nvars"])
+        for cl, loc in sorted(pf.get(t["id"], ())):
+            if gridprops.clause_prop(cl) == "C13":
+                v.violation("C13 engine=gridpair clause=%s pair=%s" % (cl, t["pair"]), "the grid generated with worker processes differs from the serial grid in %d of %d variables: %s"
+                            % (t["ndiff"], t["nvars"], t["differing"]), {"pair": t["pair"], "differing": t["differing"]})
+    v.note("serial_vs_parallel_grids", {"pairs": [t["pair"] for t in ptr], "variables_compared": [t["nvars"] for t in ptr]})
+    if not ptr:
+        v.fail_machinery("no serial / parallel grid pair was generated")
     v.exhaustive = False
     return v
